@@ -23,12 +23,13 @@ def match_known(pid, fam, inst_desc, check_desc):
     return None
 
 
-def e1_run(pid, tier, harnesses, modules, assumptions, bounds, functions, jobs=12,
+def e1_run(pid, tier, harnesses, modules, assumptions, bounds, functions, jobs=None,
            harness_timeout=600, total_timeout=5400, native_samples=3, extra_cov=None):
     """Returns the part-result dict (see lib/parts.py)."""
     t0 = time.time()
     cdir = os.path.join(CACHE, "e1", "%s-%s" % (pid, tier))
     write_crate(cdir, harnesses, modules)
+    jobs = jobs or max(4, min(NCPU, 16))
     say("[%s] %d harnesses, %d instances; running Kani (jobs=%d)" % (
         pid, len(harnesses), sum(len(h.instances) for h in harnesses), jobs))
     res, wall = run_kani(cdir, jobs=jobs, harness_timeout=harness_timeout, total_timeout=total_timeout)
